@@ -71,9 +71,12 @@ func totalOf(m map[common.Address]funds) *big.Int {
 
 // oracleC05: "applying a transaction never lowers the balance or stake of any address other than its signer",
 // except inviter→own invitee, pool→own delegator, a contract paying out of its own balance during a call.
+// The signer is NOT taken from types.Sender(tx): it is recovered from the wire bytes (WireSigner) and cross-checked with
+// the key the generator signed with; a transaction nobody signed has no allowed payer at all.
 func (f *fix) oracleC05(i int, pre, post map[common.Address]funds, preInviter, preDelegatee *common.Address) []Finding {
 	tx := f.txs[i]
-	signer, _ := types.Sender(tx)
+	signer, signed := WireSigner(tx)
+	reported, _ := types.Sender(tx)
 	var res []Finding
 	for _, a := range sortedAddrs(post) {
 		p, ok := pre[a]
@@ -81,7 +84,7 @@ func (f *fix) oracleC05(i int, pre, post map[common.Address]funds, preInviter, p
 			p = funds{new(big.Int), new(big.Int), new(big.Int), new(big.Int), new(big.Int)}
 		}
 		q := post[a]
-		if a == signer {
+		if signed && a == signer {
 			continue
 		}
 		balLow, stakeLow := q.bal.Cmp(p.bal) < 0, q.stake.Cmp(p.stake) < 0
@@ -99,7 +102,15 @@ func (f *fix) oracleC05(i int, pre, post map[common.Address]funds, preInviter, p
 		case types.DeployContractTx:
 			allowed = f.cs.Txs[i].VM != nil && a == AddrOf(f.cs.Txs[i].VM.CAddr) && !stakeLow
 		}
-		if !allowed {
+		if !allowed && a == reported {
+			who := "nobody (the signature does not recover to a key)"
+			if signed {
+				who = fmt.Sprintf("id %d", f.idOf(signer))
+			}
+			res = append(res, Finding{Sig: "C05:debited-account-is-not-the-signer",
+				Detail: fmt.Sprintf("tx type %s: the wire bytes are signed by %s, the object reports id %d as sender and id %d was lowered: balance %s -> %s, stake %s -> %s",
+					TypeName(tx.Type), who, f.idOf(reported), f.idOf(a), p.bal, q.bal, p.stake, q.stake)})
+		} else if !allowed {
 			res = append(res, Finding{Sig: "C05:other-lowered:" + TypeName(tx.Type),
 				Detail: fmt.Sprintf("tx type %s signed by id %d lowered id %d: balance %s -> %s, stake %s -> %s", TypeName(tx.Type),
 					f.idOf(signer), f.idOf(a), p.bal, q.bal, p.stake, q.stake)})
@@ -156,6 +167,31 @@ func (f *fix) oracleC04(i int, pre, post map[common.Address]funds) []Finding {
 	return res
 }
 
+// signerFindings: who the node takes for the sender versus who signed (independent of types.Sender's memo)
+func (f *fix) signerFindings(i int, verdict string) []Finding {
+	tx := f.txs[i]
+	d := &f.cs.Txs[i]
+	var res []Finding
+	ws, wok := WireSigner(tx)
+	es, eok := ExpectedSigner(d)
+	if wok != eok || (wok && ws != es) {
+		res = append(res, Finding{Sig: "C05:wire-signature-is-not-the-signing-keys",
+			Detail: fmt.Sprintf("signed with key %d (bad signature %q) but the wire bytes recover to id %d (recoverable: %v)", d.Key, d.BadSig, f.idOf(ws), wok)})
+	}
+	if verdict == "ok" && !wok {
+		rep, _ := types.Sender(tx)
+		res = append(res, Finding{Sig: "C05:unsigned-tx-accepted",
+			Detail: fmt.Sprintf("ValidateTx accepted a %s whose signature bytes (%d bytes, %q) recover to nobody; it would be charged to id %d", TypeName(tx.Type), len(tx.Signature), d.BadSig, f.idOf(rep))})
+	}
+	if wok {
+		if rep, _ := types.Sender(tx); rep != ws {
+			res = append(res, Finding{Sig: "C05:reported-sender-is-not-the-signer",
+				Detail: fmt.Sprintf("%s: the wire bytes are signed by id %d, types.Sender of the object answers id %d (verdict %s)", TypeName(tx.Type), f.idOf(ws), f.idOf(rep), verdict)})
+		}
+	}
+	return res
+}
+
 type RunStats struct {
 	Hits     map[string]int
 	Verdicts []string // per executed op
@@ -194,6 +230,10 @@ func RunCase(cs *Case, emit func(op, impl string)) (findings []Finding, stats Ru
 			stats.Verdicts = append(stats.Verdicts, ans)
 			if op.Mode == 1 && (op.MinFpg == "net" || op.MinFpg == "") && ans == "ok" {
 				valOK[op.Tx] = f.version
+			}
+			for _, x := range f.signerFindings(op.Tx, ans) {
+				x.OpIdx = opi
+				findings = append(findings, x)
 			}
 			if applied[op.Tx] && ans == "ok" && f.check.State.Epoch() == appliedEpoch[op.Tx] {
 				findings = append(findings, Finding{Sig: "C06:replay-validated:" + tname,
